@@ -22,6 +22,8 @@ pub enum Layout {
     Random,
     /// Random, preceded by blank lines, a multi-byte comment and multi-byte white space
     RandomWithPrefix,
+    /// one token per line behind 70 000 empty lines: every line number is above 2^16
+    TallPrefix,
 }
 
 pub const NAMED: [Layout; 9] = [
@@ -41,6 +43,7 @@ impl Layout {
             Layout::NoFinalNewline => "no_final_newline",
             Layout::Random => "random",
             Layout::RandomWithPrefix => "random_with_prefix",
+            Layout::TallPrefix => "tall_prefix",
         }
     }
 }
@@ -169,6 +172,10 @@ pub fn lay(toks: &[Tok], layout: Layout, rng: &Rng) -> (Laid, Vec<&'static str>)
         text.push_str("/* é */ ");
         kinds.push("prefix");
     }
+    if layout == Layout::TallPrefix {
+        text.push_str(&"\n".repeat(70_000));
+        kinds.push("tall-prefix");
+    }
     let mut depth = 0usize;
     for (i, t) in toks.iter().enumerate() {
         if i > 0 {
@@ -176,7 +183,7 @@ pub fn lay(toks: &[Tok], layout: Layout, rng: &Rng) -> (Laid, Vec<&'static str>)
             let can_glue = if t.ws_only_before { t.glue_ok } else { is_glue_punct(&prev.s) || is_glue_punct(&t.s) };
             let prev_is_pragma_op = t.ws_only_before && matches!(prev.s.as_str(), ">=" | "<=" | ">" | "<" | "=" | "^" | "~");
             match layout {
-                Layout::OneTokenPerLine => text.push('\n'),
+                Layout::OneTokenPerLine | Layout::TallPrefix => text.push('\n'),
                 Layout::SingleLine | Layout::SingleLineNl => text.push(' '),
                 Layout::Compact => {
                     if !can_glue {
@@ -213,7 +220,7 @@ pub fn lay(toks: &[Tok], layout: Layout, rng: &Rng) -> (Laid, Vec<&'static str>)
         text.push_str(&t.s);
     }
     match layout {
-        Layout::OneTokenPerLine | Layout::Compact | Layout::Pretty | Layout::SingleLineNl => text.push('\n'),
+        Layout::OneTokenPerLine | Layout::TallPrefix | Layout::Compact | Layout::Pretty | Layout::SingleLineNl => text.push('\n'),
         Layout::Crlf => text.push_str("\r\n"),
         Layout::Random | Layout::RandomWithPrefix => {
             if rng.chance(1, 2) {
